@@ -21,6 +21,7 @@ def instances(build, tier, seed):
     L += [i for i in c07.data_instances('quick', fam='pure.data') if len(i.bound['initializers']) == 1]
     L += [i for i in c13.scan_instances('quick', fam='pure.scan') if 'SECOND' not in i.defs and i.defs['FIRST'] % 8 == 1]
     L += [i for i in exprlib.expr_instances('quick', seed, 'ONLY_RT', 'pure.select', ops=('add', 'lt', 'shr')) if not i.optional][::3]
+    L += exprlib.ptrcmp_instances('quick', seed, 'ONLY_RT', 'pure.select')
     # side evidence, recorded in META (not a solver obligation)
     try:
         out = subprocess.run(['nm', '-u', build.nat + '/cproc-qbe'], capture_output=True, text=True).stdout
